@@ -122,6 +122,13 @@ func (x *world) body(t *f1testing.T) {
 		vrt.WaitUntil("barrier", func() bool { return x.entered >= need })
 	case "yield":
 		vrt.Yield()
+	case "first-waits-for-last":
+		// one slow iteration: the first one started does not finish before the last allowed one has begun,
+		// so the other workers have to run everything in between (and, in users mode, keep going)
+		if myIdx == 0 {
+			last := int(x.c.limit)
+			vrt.WaitUntil("last-iteration-begun", func() bool { return len(x.ids) >= last })
+		}
 	}
 	if x.c.bodyDur > 0 {
 		vtime.Sleep(x.c.bodyDur)
@@ -586,6 +593,10 @@ func scenariosFor(tier string) []vrt.Scenario {
 			add(3, cfg{kind: "continuous", workers: 2, limit: 2, gate: "none"})
 		}
 	case "C04":
+		// a slow first iteration: the other workers take everything that is left, up to the limit
+		addDelay(2, cfg{kind: "continuous", workers: 2, limit: 6, gate: "first-waits-for-last"})
+		addDelay(1, cfg{kind: "continuous", workers: 3, limit: 12, gate: "first-waits-for-last"})
+		addDelay(1, cfg{kind: "trigger", workers: 2, limit: 5, ticks: q(7), gate: "first-waits-for-last", stop: "limit"})
 		plain(1, true, cfg{kind: "trigger", workers: 2, ticks: q(2), gate: "barrier", stop: "cancel-q"})
 		plain(1, true, cfg{kind: "continuous", workers: 2, gate: "yield", bodyDur: time.Millisecond, runFor: 2 * time.Millisecond})
 		for _, wk := range []int{1, 2, 3} {
